@@ -141,3 +141,12 @@ def run(P: Program, R: Report, tier: str) -> None:
     from .annot import compute_is_memoryless
 
     compute_is_memoryless(P, R, ann, "R08.5")
+    # ---- R08.6 in the paint update the overlapped nodes are shrunk before the painted node is measured
+    from .c07 import release_before_claim
+
+    uu = P.class_named("UserUpdateSegmentation")
+    if uu is None:
+        raise AnalysisError("paint-driven user action UserUpdateSegmentation not found")
+    fu = A.init_of(uu)
+    _, res_u = A.run(fu)
+    release_before_claim(R, fu, res_u, "R08.6")
